@@ -578,6 +578,35 @@ def _check_compound(ctx, case):
                 raise Violation("c16:mixing:%s" % nm, "D2O_sld(%s)[%d] is not linear in volume fraction: %s" % (where, k, bad), case)
     check_match(ctx, case, E, arg, kw, okw, pairs, rho, where, Sr + Wr)
 
+    # The caller's Formula object is extended in place (formula += other; its density attribute keeps its value)
+    # and asked again: the answer is that of the NEW composition at that density.
+    if not isinstance(arg, (str, dict)) and not dkw and c["dens"][0] != "element" and not c.get("long") \
+            and getattr(arg, "density", None) is not None:
+        T = E["T"]
+        extra = E["pt"].formula("H[1]2OC", **E.get("table_kw", {}))
+        rho_obj = arg.density
+        arg += extra
+        if arg.density != rho_obj:
+            arg.density = rho_obj
+        merged = dict((id(a), [a, n]) for a, n in pairs)
+        for a, n in ((T.H[1], 2), (T.O, 1), (T.C, 1)):
+            if id(a) in merged:
+                merged[id(a)][1] += n
+            else:
+                merged[id(a)] = [a, n]
+        pairs2 = [(a, n) for a, n in merged.values()]
+        direct2 = direct_sld(E, pairs2, rho_obj, d, okw)
+        Sr2, Si2 = scale_of(E, pairs2, rho_obj, okw)
+        got2 = call_sld(E, arg, 1.0, d, style, kw)
+        ctx.count("object-extended-in-place")
+        for k, nm, S in ((0, "real", Sr2), (1, "imag", Si2)):
+            bad = differs(E, got2[k], direct2[k], S)
+            if bad:
+                raise Violation("c16:direct:%s:after-iadd" % nm,
+                                "D2O_sld(%s)[%d] at volume fraction 1, asked again after the Formula object was extended in "
+                                "place by H[1]2OC (density attribute still %r), is %s" % (where, k, rho_obj, bad), case)
+        check_match(ctx, case, E, arg, kw, okw, pairs2, rho_obj, where + " += H[1]2OC", Sr2 + Wr)
+
 
 def oracle_lines(E, pairs, rho, okw):
     Hs = direct_sld(E, pairs, rho, 0.0, okw)[0]
